@@ -403,22 +403,49 @@ type Src struct {
 	Ctxs             []context.Context
 	Done             int // producers that finished their script
 	// per subscription
-	subs []*srcSub
+	subs   []*srcSub
+	manual []manualSub
 	// multi-attempt: script for the n-th subscription (overrides Spec.Script)
 	Attempts [][]Step
 	// hot: the subject
 	Subject ro.Subject[int]
 	// Calls made by producers: for the late-notification oracle
 	Calls []ProdCall
+	// AfterCall runs on the producer's actor right after each call returned
+	AfterCall func(c *ProdCall)
 }
 
 // ProdCall is one producer-side call into the library.
 type ProdCall struct {
+	Actor     int
 	Src, Prod int
 	Step      Step
 	Invoke    int
 	Return    int
 	Panic     interface{}
+}
+
+type manualSub struct {
+	dest ro.Observer[int]
+	ctx  context.Context
+	sub  *srcSub
+}
+
+// Push delivers one notification to every live subscription of a manual source (on the caller's actor).
+// It reports how many subscriptions received it.
+func (s *Src) Push(st Step) int {
+	n := 0
+	for _, m := range s.manual {
+		if m.sub.released {
+			continue
+		}
+		n++
+		s.emit(m.dest, m.ctx, 0, st)
+	}
+	if n == 0 {
+		s.env.K.Log(fmt.Sprintf("src%d push %s%d: nobody subscribed", s.ID, st.K, st.V))
+	}
+	return n
 }
 
 type srcSub struct {
@@ -434,7 +461,7 @@ func (e *Env) NewSrc(spec SrcSpec) *Src {
 }
 
 func (s *Src) emit(dest ro.Observer[int], ctx context.Context, prod int, st Step) {
-	c := ProdCall{Src: s.ID, Prod: prod, Step: st, Invoke: s.env.Step()}
+	c := ProdCall{Src: s.ID, Prod: prod, Step: st, Invoke: s.env.Step(), Actor: s.env.K.Cur().ID}
 	idx := len(s.Calls)
 	s.Calls = append(s.Calls, c)
 	s.env.K.Log(fmt.Sprintf("src%d.%d call %s%d", s.ID, prod, st.K, st.V))
@@ -455,6 +482,9 @@ func (s *Src) emit(dest ro.Observer[int], ctx context.Context, prod int, st Step
 		}
 	}()
 	s.Calls[idx].Return = s.env.Step()
+	if s.AfterCall != nil {
+		s.AfterCall(&s.Calls[idx])
+	}
 }
 
 func (s *Src) play(dest ro.Observer[int], ctx context.Context, sub *srcSub, prod int, script []Step, timed bool, stopOnRelease bool) {
@@ -539,6 +569,9 @@ func (s *Src) Obs() ro.Observable[int] {
 					}
 				}
 			})
+		case "manual":
+			// the scenario pushes notifications explicitly (Src.Push); subscribing plays nothing
+			s.manual = append(s.manual, manualSub{dest: dest, ctx: ctx, sub: sub})
 		case "never":
 			// subscribes and stays silent
 		case "async", "timed":
